@@ -32,11 +32,11 @@ def run(ctx, col, tier):
     col.rule("R-DEF", "definitional identities: closed-form measures as exact polynomial identities "
              "(partition asymmetry, cylinder/circle/sphere formulas, diameter), and the wiring of "
              "counts, lengths, ratios and bifurcation vectors to the quantities their definitions "
-             "name", floor=18)
+             "name", floor=18, shape=True)
     col.rule("R-THRESH", "child-count predicates behind the counts (furcation <=> >= 2 children, "
-             "tip <=> none) in every copy", floor=6, exhaustive=True)
+             "tip <=> none) in every copy", floor=6, exhaustive=True, shape=True)
     col.rule("R-PAD", "population front end: one row per tree in population order, rows padded with "
-             "zeros to the longest row", floor=4)
+             "zeros to the longest row", floor=4, shape=True)
     col.not_decided += ["numerical agreement of the values with the definitions (floating point)",
                         "the tie convention of the Sholl count at radii that coincide with a node",
                         "the branch-order convention; the direction of the tortuosity ratio (as documented)"]
@@ -76,12 +76,12 @@ def dispatch(ctx, col):
     logic_ok = "getattr(self, f'get_{feature}', None)" in src and "feature.split('_')" in src \
         and "getattr(self, f'{components[0]}_features', None)" in src \
         and "getattr(module, f'get_{'_'.join(components[1:])}', None)" in src
-    col.judge(True, logic_ok, R_, ge.qualname, ge.loc(), "lookup logic: get_<name>, else <head>_features.get_<rest>, else ValueError", "",
+    col.shape(logic_ok, R_, ge.qualname, ge.loc(), "lookup logic: get_<name>, else <head>_features.get_<rest>, else ValueError", "",
               "the lookup logic of get_evaluator is not the modelled one", stmt="logic")
     g = repo.get_def(f"{FX}.FeatureExtractor._get")
     gs = norm_src(g.node)
     ok = "getattr(self, f'get_{feat}', None)" in gs and "return self._get_impl(feat, **kwargs)" in gs
-    col.judge(True, ok, R_, g.qualname, g.loc(), "extractor lookup: own get_<name> first, else the per-tree evaluator", "",
+    col.shape(ok, R_, g.qualname, g.loc(), "extractor lookup: own get_<name> first, else the per-tree evaluator", "",
               "FeatureExtractor._get is not the modelled lookup", stmt="logic2")
     for name in names:
         how = None
@@ -200,6 +200,8 @@ def returns(ctx, col):
                 col.unresolved(R_, d.qualname, d.loc(r), "raise operand is an exception", f"cannot classify `{norm_src(r)}`", stmt=norm_src(r))
         if ann in (None, "None") or any("abstractmethod" in x for x in d.decorators):
             continue
+        if any(isinstance(n, (ast.Yield, ast.YieldFrom)) for n in own_nodes(d)):
+            continue  # a generator: falling off the end ends the iteration
         stub = len(body) == 1 and isinstance(body[0], ast.Raise) and "NotImplementedError" in norm_src(body[0])
         if stub:
             continue
